@@ -34,11 +34,12 @@ Proof. intros pre ls n s. apply run_share. apply run_inv, inv_init. Qed.
 Print Assumptions C16_share.
 
 (* ... and requests are indeed served by it (in every state s, reachable or not): an open sink gets the
-   request at once; while it is opening the request joins the same open (no Create) and waits; a
+   request at once, also while it reports Busy (it is not replaced); while it is opening the request joins the same open (no Create) and waits; a
    waiting request whose open has completed is forwarded to the pool's sink when it is resumed. *)
 Theorem C16_share_requests : forall s n f,
   next s = Some n ->
-  (nth_error (sinks s) n = Some SOpen -> step s (Req f) = (bump s, [Forward (ntask s) n])) /\
+  (nth_error (sinks s) n = Some SOpen \/ nth_error (sinks s) n = Some SBusy ->
+     step s (Req f) = (bump s, [Forward (ntask s) n])) /\
   (nth_error (sinks s) n = Some SIdle ->
      step s (Req f) = (set_waiting (bump s) (waiting s ++ [mkTask (ntask s) KReq n]), [OpenUnder n])) /\
   (forall t tk, find_task t (waiting s) = Some tk -> t_kind tk = KReq ->
@@ -169,6 +170,12 @@ Example C16_example_concurrent :
 Proof.
   split; [vm_compute; reflexivity|]. split; [exists SIdle | exists SOpen]; (split; [vm_compute; reflexivity | discriminate]).
 Qed.
+
+(* a Busy connection is healthy: requests keep going to it, no second connection *)
+Example C16_example_busy :
+  snd (run init [Req false; OpenDone 0 true; Resume 0; SetBusy 0 true; Req false; Req false; SetBusy 0 false; Req false])
+  = [[Create 0; OpenUnder 0]; []; [Forward 0 0]; []; [Forward 1 0]; [Forward 2 0]; []; [Forward 3 0]].
+Proof. vm_compute; reflexivity. Qed.
 
 (* pool.Open() whose greenlet starts only after a request has created the sink: it joins that open *)
 Example C16_example_late_start :
